@@ -387,7 +387,21 @@ def run(ctx, rep):
         else:
             rep.violation("C04.occurs", label, "the bound graph is iterated without a preceding occurs check whose failure returns early: "
                           "a cyclic type makes finalisation diverge", f.where())
+    # error construction unfolds the offending bound with sharing: without it a DAG-shaped type (T_n = T_{n-1} x T_{n-1})
+    # becomes a tree of 2^n nodes before it is ever displayed
+    f = F.fn("simplicity::types::incomplete::Incomplete::from_bound_ref")
+    if f is not None:
+        for cs in F.inlined(f).calls():
+            if cs.name == "post_order_iter":
+                ga = " ".join(cs.f.get("args", []))
+                if "NoSharing" in ga:
+                    rep.violation("C04.occurs", "from_bound_ref:sharing", "Incomplete::from_bound_ref unfolds the bound graph with NoSharing: building the error "
+                                  "for a shared (DAG-shaped) incomplete type takes time and space exponential in its depth", cs.where())
+                else:
+                    rep.ok("C04.occurs", "from_bound_ref: shared traversal", ga[-60:])
     f = F.fn("simplicity::types::Type::<'brand>::finalize")
+    if f is not None:
+        _writeback(F, rep, F.inlined(f, ("reassign_non_complete", "get", "unit", "sum", "product", "next")))
     if f is not None:
         okk = False
         for b, si in enum_switches(f, "types::Bound"):
@@ -402,6 +416,7 @@ def run(ctx, rep):
         else:
             rep.violation("C04.occurs", "free-to-unit", "a remaining free variable is not finalised to the unit type", f.where())
     n_disp = 0
+    site_fns = set()
     for g in F.fns.values():
         for cs in g.calls():
             if cs.name == "verbose_pre_order_iter":
@@ -409,6 +424,7 @@ def run(ctx, rep):
                 if not ("BoundRef" in ga or "Incomplete" in ga or "types::" in (cs.self_ty or "") and "Final" not in (cs.self_ty or "")):
                     continue
                 n_disp += 1
+                site_fns.add(g.path)
                 T = Terms(g)
                 a = T.operand(cs.args[1])
                 key = "display:" + fm.short(g.path)
@@ -425,7 +441,28 @@ def run(ctx, rep):
                     rep.ok("C04.occurs", key, "depth limit %s, length cut-off present" % a[4][0][1])
                 else:
                     rep.violation("C04.occurs", key, "Display over a possibly cyclic type without depth limit (%s) or length cut-off (%s)" % (lim, cut), cs.where())
-    rep.floor("C04.occurs(bounded displays)", n_disp, 3)
+    # non-vacuity: the Display/Debug entry points that print possibly-incomplete types (counted on today's tree: Debug and
+    # Display of Type, Display of Incomplete) each reach such a bounded loop — directly or through a shared helper
+    entries = 0
+    for g in F.fns.values():
+        if g.name != "fmt" or g.kind == "Closure" or not (g.impl_trait or "").endswith(("fmt::Display", "fmt::Debug")):
+            continue
+        seen, todo = {g.path}, [(g, 0)]
+        hit = g.path in site_fns
+        while todo and not hit:
+            h, dpt = todo.pop()
+            if dpt >= 3:
+                continue
+            for c in F.callees_of(h):
+                if c.path in seen or not c.path.startswith("simplicity::types"):
+                    continue
+                seen.add(c.path)
+                if c.path in site_fns:
+                    hit = True
+                    break
+                todo.append((c, dpt + 1))
+        entries += hit
+    rep.floor("C04.occurs(bounded displays)", entries, 3)
 
     # occurs_check itself: three-colour DFS — a bound is marked in-progress only after the completed test
     oc = F.fn("simplicity::types::incomplete::Incomplete::occurs_check")
@@ -639,6 +676,71 @@ def run(ctx, rep):
             rep.ok("C04.rec", "scc:" + c["sig"][:120], "%s: %s" % (c["kind"], c["reason"]))
     return FINISH
 
+
+
+def _writeback(F, rep, f):
+    """Type::finalize: on every iteration whose bound is not yet Complete (Free, Sum, Product) the finalised type is written
+    back into the context (reassign_non_complete) before the loop goes on, so that a variable defaulted to unit cannot be
+    bound to something else by later construction on the same nodes.  Path search with the decisions on the bound kept
+    consistent (a second test of the same bound takes the same variant)."""
+    wb = {cs.bb for cs in f.calls() if cs.name == "reassign_non_complete"}
+    sws = [(b, si) for b, si in enum_switches(f, "types::Bound") if f.in_loop(b)]
+    if not wb or not sws:
+        rep.anchor("C04.occurs", "Type::finalize: match on Bound in the loop / reassign_non_complete")
+        return
+    b0, si0 = sws[0]
+    for b, si in sws:
+        if f.dominates(b, b0):
+            b0, si0 = b, si
+    subject = (si0[0][0], tuple(si0[0][1]))
+    heads = {cs.bb for cs in f.calls() if cs.name == "next" and f.in_loop(cs.bb) and f.dominates(cs.bb, b0)}
+    errs = flow.error_blocks(f)
+    variants = [v for v in list(si0[2]) + list(si0[4]) if v != "Complete"]
+
+    def target_for(b, si, v):
+        return si[2].get(v, f.blocks[b]["t"]["otherwise"] if v in si[4] else None)
+    for v in variants:
+        start = target_for(b0, si0, v)
+        if start is None:
+            continue
+        # depth-first search carrying the boolean constants assigned on the way (`matches!` stores its verdict in a
+        # temporary and branches on it in a later block)
+        seen, todo, bypass = set(), [(start, ())], None
+        while todo and bypass is None:
+            b, st = todo.pop()
+            if (b, st) in seen or b in wb or b in errs:
+                continue
+            seen.add((b, st))
+            if b in heads or f.blocks[b]["t"]["k"] == "return":
+                bypass = b
+                break
+            env = dict(st)
+            for stmt in f.blocks[b]["s"]:
+                if stmt[0] == "=" and not stmt[1][1]:
+                    c = fm.const_term(stmt[2]["a"]) if stmt[2].get("k") == "use" else None
+                    if c is not None and c[0] == "int" and len(c) > 2 and c[2] == "bool":
+                        env[stmt[1][0]] = int(c[1])
+                    else:
+                        env.pop(stmt[1][0], None)
+            st2 = tuple(sorted(env.items()))
+            t = f.blocks[b]["t"]
+            si = fm.switch_info(f, b)
+            if si and (si[0][0], tuple(si[0][1])) == subject:
+                t2 = target_for(b, si, v)
+                todo.append((t2 if t2 is not None else t["otherwise"], st2))
+                continue
+            if t["k"] == "switch" and t["discr"].get("k") in ("move", "copy") and not t["discr"]["p"][1] and t["discr"]["p"][0] in env:
+                val = str(env[t["discr"]["p"][0]])
+                tg = [x for vv, x in t["targets"] if vv == val]
+                todo.append((tg[0] if tg else t["otherwise"], st2))
+                continue
+            todo.extend((x, st2) for x in f.succs(b))
+        key = "finalize: %s bound is written back as Complete" % v
+        if bypass is None:
+            rep.ok("C04.occurs", key, None)
+        else:
+            rep.violation("C04.occurs", "finalize:writeback:" + v, "Type::finalize goes on to the next node without reassign_non_complete when the bound is %s: "
+                          "the context keeps the old bound, so a later unification can contradict the type already handed out" % v, f.where())
 
 def _calls_while_live(F, f, g, start, lockers, env_field=None):
     """Calls that can reach Context::lock made while guard local `g` (or closure env field) is live."""
